@@ -33,6 +33,12 @@ fn gen_key(r: &mut Rng) -> CN {
         10 => CN::Bool(r.chance(1, 2)),
         11 => CN::Seq(vec![CN::Str("a".into())]),
         12 => CN::Map(vec![]),
+        // an unresolved node (as left by early_parse(false) or built by hand) next to resolved keys
+        13 if r.chance(1, 2) => CN::Rep(
+            r.pick(KEY_STRINGS).to_string(),
+            saphyr_parser::ScalarStyle::Plain,
+            if r.chance(1, 3) { Some(("tag:yaml.org,2002:".to_string(), "str".to_string())) } else { None },
+        ),
         _ => CN::Str(format!("k{}", r.below(5))),
     }
 }
@@ -73,6 +79,7 @@ pub fn cn_to_yaml_borrowed(c: &CN) -> Yaml<'_> {
             }
             Yaml::Mapping(m)
         }
+        CN::Rep(v, st, t) => Yaml::Representation(Cow::Borrowed(v.as_str()), *st, t.as_ref().map(|(h, x)| saphyr_parser::Tag { handle: h.clone(), suffix: x.clone() })),
         other => cn_to_yaml(other),
     }
 }
